@@ -154,6 +154,31 @@ def r09_2(ctx):
                         src = pvb.operand(t["args"][0])
                         keyed.append(src[0] == "call" and src[1].rsplit("::", 1)[1] == "into_owned" and src[2] and src[2][0][0] == "call" and src[2][0][1].rsplit("::", 1)[1] == "parse")
             r.ob("sort:keyed-by-decoded-names:%s" % fn.name, bool(keyed) and all(keyed), fn.site, "the sorted map is collected straight from form_urlencoded::parse(..).into_owned()")
+        # under `ignore_path_and_query_case` the order must not depend on letter case: the keys the map is ordered by
+        # have to be case-folded somewhere before (or in) the ordering step.  Both sides order the keys as written and
+        # fold the finished string afterwards: `?a=1&B=2` becomes `b=2&a=1`, its case swap `?A=1&b=2` becomes `a=1&b=2` (D25)
+        FOLD = ("to_lowercase", "to_ascii_lowercase", "to_uppercase", "to_ascii_uppercase", "make_ascii_lowercase", "eq_ignore_ascii_case")
+        for fn, side in ((f, "request-side"), (h, "rule-side")):
+            folded = False
+            for b in fn.all_bodies():
+                pvb = Prov(b, copies=True)
+                for bi, t, cal in b.calls():
+                    if cal is None:
+                        continue
+                    if cal.name == "collect" and any("BTreeMap" in F.types[x]["s"] for x in cal.substs):
+                        if mentions(pvb.operand(t["args"][0]), lambda y: y[0] == "call" and y[1].rsplit("::", 1)[-1] in FOLD):
+                            folded = True
+                    if cal.name in ("sort_by", "sort_by_key", "sort_unstable_by", "sort_by_cached_key", "sort_unstable_by_key"):
+                        for c in b.closures:
+                            if any(cc is not None and cc.name in FOLD for _b, _t, cc in c.calls()):
+                                folded = True
+                # a closure of the chain feeding the map (`.map(|(k, v)| (k.to_lowercase(), ..))`) folds inside the chain
+                if b.is_closure and b is not fn and any(cc is not None and cc.name in FOLD for _b, _t, cc in b.calls()):
+                    pf = Prov(fn, copies=True)
+                    for bi, t, cal in fn.calls():
+                        if cal is not None and cal.name == "collect" and any("BTreeMap" in F.types[x]["s"] for x in cal.substs) and mentions(pf.operand(t["args"][0]), lambda y: y[0] == "closure" or (y[0] == "agg" and "closure" in str(y[1]))):
+                            folded = True
+            r.ob("sort:case-independent-order:%s" % side, folded, fn.site, "the keys the parameters are ordered by are case-folded before the ordering step" if folded else "the parameters are ordered by their keys as written and the text is case-folded afterwards: under the case flag the order depends on letter case")
         # both sides parse with the same function
         for fn in (f, h):
             okp = any(cal and cal.path.startswith("url::form_urlencoded::parse") or (cal and cal.key().endswith("form_urlencoded::parse")) for bi, t, cal in fn.calls())
